@@ -269,6 +269,10 @@ def reference_verify_m2(delivered: list[tuple[int, bytes]], ios_priv: bytes, sto
     of possession of the stored long-term key bound to this exchange's two keys and the
     stored identifier?  (State field leniency: absent state tolerated, like iOS.)"""
     d = tlv8.to_dict(delivered)
+    if T_ERROR in d:
+        return False, "reply carries an error code"
+    if d.get(T_STATE, b"\x02") != b"\x02":
+        return False, "step number altered"
     pk = d.get(T_PUBKEY)
     if pk is None or len(pk) != 32:
         return False, "no 32-byte public key"
